@@ -50,6 +50,7 @@ def T_scaled(rng, v=0):
     from PEPit import PEP
     from PEPit.functions import SmoothStronglyConvexFunction
     R = [50., 20.][v % 2]
+    big = 1e9 if v >= 2 else 1.          # (v >= 2: the initial condition written in huge units - its exact multiplier is of order 1e-9 / R^2)
     p = PEP()
     f = p.declare_function(SmoothStronglyConvexFunction, L=1., mu=.1)
     xs = f.stationary_point()
@@ -57,7 +58,7 @@ def T_scaled(rng, v=0):
     g0 = f.gradient(x0)
     x1 = x0 - g0
     y = p.set_initial_point()
-    for c in [(x0 - xs) ** 2 <= R ** 2, y ** 2 == 1, y * (x0 - xs) == 0, y * g0 == 0]:
+    for c in [big * (x0 - xs) ** 2 <= big * R ** 2, y ** 2 == 1, y * (x0 - xs) == 0, y * g0 == 0]:
         p.set_initial_condition(c)
     p.set_performance_metric((x1 - xs) ** 2)
     return p, dict(points=[x0, x1, y], exprs=[(x1 - xs) ** 2, y * y], funcs=[f], scale=R * R)
@@ -388,7 +389,8 @@ def T_inexact(rng, v=0):
     from PEPit.primitive_steps import inexact_gradient_step, exact_linesearch_step
     mu, L = 0.1, 1.0
     p = PEP()
-    f = p.declare_function(SmoothStronglyConvexFunction, mu=mu, L=L)
+    # (v % 3 == 2: the function is built by calling its class, not through declare_function - leaf functions register themselves)
+    f = SmoothStronglyConvexFunction(mu=mu, L=L) if v % 3 == 2 else p.declare_function(SmoothStronglyConvexFunction, mu=mu, L=L)
     xs = f.stationary_point()
     fs = f(xs)
     x0 = p.set_initial_point()
@@ -399,7 +401,26 @@ def T_inexact(rng, v=0):
     else:
         x1, g1, fx = exact_linesearch_step(x0, f, [f.gradient(x0)])
     p.set_performance_metric(fx - fs)
-    return p, dict(points=[x0, x1, xs], exprs=[fx - fs], funcs=[f])
+    return p, dict(points=[x0, x1, xs], exprs=[fx - fs], funcs=[f], declared=list(f.list_of_constraints))      # the side constraints of the step reach the solver
+
+
+def T_lmi_trace(rng, v=0):
+    """a free point z under the LMI [[c - 5 |z|^2, s], [s, 1]] >> 0: nothing but the trace heuristic has an opinion on |z|^2, and the trace of the AUXILIARY matrix of
+    the LMI decreases when |z|^2 grows"""
+    from PEPit import PEP, Expression
+    from PEPit.functions import SmoothStronglyConvexFunction
+    c = [2., 3.][v % 2]
+    p = PEP()
+    f = p.declare_function(SmoothStronglyConvexFunction, mu=.1, L=1.)
+    xs = f.stationary_point()
+    x0 = p.set_initial_point()
+    p.set_initial_condition((x0 - xs) ** 2 <= 1)
+    x1 = x0 - f.gradient(x0)
+    z = p.set_initial_point()
+    s_ = Expression()
+    lmi = p.add_psd_matrix([[c - 5 * z ** 2, s_], [s_, 1.]])
+    p.set_performance_metric((x1 - xs) ** 2)
+    return p, dict(points=[x0, x1, z], exprs=[(x1 - xs) ** 2, z ** 2], funcs=[f], lmis=[lmi])
 
 
 def T_nonsmooth(rng, v=0):
@@ -446,7 +467,7 @@ def T_unbounded(rng, v=0):
 
 
 TEMPLATES = [T_gd_ssc, T_metrics, T_prox_convex, T_user_lmi, T_asym_lmi, T_quadratic, T_composite, T_qg, T_operator, T_blocks, T_linear, T_inexact, T_nonsmooth]
-ALL = {t.__name__: t for t in TEMPLATES + [T_unbounded, T_scaled, T_duplicates, T_illcond]}
+ALL = {t.__name__: t for t in TEMPLATES + [T_unbounded, T_scaled, T_duplicates, T_illcond, T_lmi_trace]}
 
 
 def build(name, seed):
